@@ -657,3 +657,67 @@ pub fn compress_kmers_no_exts<K: Kmer, D: Clone + Debug, S: CompressionSpec<D>>(
     let index = BoomHashMap2::new(keys, exts, data);
     CompressFromHash::<K, D, S>::compress_kmers(stranded, spec, &index)
 }
+
+/// Verification hooks: run exactly one path-growth decision of the two private compressors
+/// from a caller-supplied table / graph and availability set.
+#[cfg(feature = "verif_hooks")]
+pub mod verif_hooks {
+    use super::*;
+
+    /// Public mirror of the private `ExtMode` / `ExtModeNode` results.
+    #[derive(Copy, Clone, Debug)]
+    pub enum Step<T> {
+        Unique(T, Dir, Exts),
+        Terminal(Exts),
+    }
+
+    /// One call of `CompressFromHash::try_extend_kmer`.
+    pub fn try_extend_kmer_step<K: Kmer, D: Clone + Debug, S: CompressionSpec<D>>(
+        stranded: bool,
+        spec: &S,
+        index: &BoomHashMap2<K, Exts, D>,
+        available_kmers: BitSet,
+        kmer: K,
+        dir: Dir,
+    ) -> Step<K> {
+        let comp = CompressFromHash {
+            stranded,
+            spec,
+            k: PhantomData,
+            d: PhantomData,
+            available_kmers,
+            index,
+        };
+        match comp.try_extend_kmer(kmer, dir) {
+            ExtMode::Unique(k, d, e) => Step::Unique(k, d, e),
+            ExtMode::Terminal(e) => Step::Terminal(e),
+        }
+    }
+
+    /// One call of `CompressFromGraph::try_extend_node`.
+    pub fn try_extend_node_step<K, D, S>(
+        stranded: bool,
+        spec: &S,
+        graph: &DebruijnGraph<K, D>,
+        available_nodes: BitSet,
+        node: usize,
+        dir: Dir,
+    ) -> Step<usize>
+    where
+        K: Kmer + Send + Sync,
+        D: Debug + Clone + PartialEq,
+        S: CompressionSpec<D>,
+    {
+        let mut comp = CompressFromGraph {
+            stranded,
+            d: PhantomData,
+            spec,
+            available_nodes,
+            graph,
+        };
+        match comp.try_extend_node(node, dir) {
+            ExtModeNode::Unique(n, d, e) => Step::Unique(n, d, e),
+            ExtModeNode::Terminal(e) => Step::Terminal(e),
+        }
+    }
+}
